@@ -19,7 +19,9 @@ EXPLANATION = (
     "initialised instance. P2 the link fields are ordinary instance attributes/slots: no property, descriptor, "
     "__getattribute__, __getstate__/__reduce__/__deepcopy__ in the node classes intercepts them, and "
     "LightNodeMixin.__slots__ lists them and the dict-based node classes declare no __slots__, so default "
-    "pickling/copying (and a __getstate__ copying self.__dict__) captures exactly the links. P3 no id() value is stored in "
+    "pickling/copying (and a __getstate__ copying self.__dict__) captures exactly the links; a __setstate__ is accepted only "
+    "when it puts the dict part of the state into self.__dict__ with update() (setattr would go through properties and "
+    "__setattr__); fields cached from the links (memo fields) count as link fields throughout. P3 no id() value is stored in "
     "state that outlives a call of a node class (only in containers created by that call): ids name the original "
     "objects after a copy. P4 no module-level mutable object is stored in a link field. Isomorphism, "
     "independence and protocol coverage of the copy are NOT decided (behaviour of pickle/copy's C code)."
@@ -30,10 +32,50 @@ PICKLE_HOOKS = ("__getstate__", "__setstate__", "__reduce__", "__reduce_ex__", "
                 "__getnewargs_ex__", "__getattribute__")
 
 
+def _setstate_form(f):
+    """True: the dict part of the state goes into self.__dict__ via update() and only a slot part is set attribute by
+    attribute; an ast node: a setattr loop over the dict part; None: not followed"""
+    ps = [x for x in f.posparams if x != f.selfname]
+    if len(ps) != 1:
+        return None
+    state = ps[0]
+    dict_names, slot_names = {state}, set()
+    for n in walk_own(f.node):
+        if isinstance(n, ast.Assign) and len(n.targets) == 1 and isinstance(n.targets[0], ast.Tuple) and len(n.targets[0].elts) == 2 \
+                and all(isinstance(e, ast.Name) for e in n.targets[0].elts) and isinstance(n.value, ast.Name) and n.value.id == state:
+            dict_names.add(n.targets[0].elts[0].id)
+            slot_names.add(n.targets[0].elts[1].id)
+    updates = [c for c in walk_own(f.node) if isinstance(c, ast.Call) and norm(c.func) == "%s.__dict__.update" % f.selfname
+               and len(c.args) == 1 and isinstance(c.args[0], ast.Name) and c.args[0].id in dict_names]
+    bad = None
+    for lp in [n for n in walk_own(f.node) if isinstance(n, ast.For)]:
+        it = lp.iter
+        src = it.func.value if isinstance(it, ast.Call) and isinstance(it.func, ast.Attribute) and it.func.attr == "items" else None
+        sets = [c for c in ast.walk(lp) if isinstance(c, ast.Call) and isinstance(c.func, ast.Name) and c.func.id == "setattr"
+                and c.args and norm(c.args[0]) == f.selfname]
+        if not sets:
+            continue
+        if isinstance(src, ast.Name) and src.id in slot_names and src.id not in dict_names:
+            continue
+        if isinstance(src, ast.Name) and src.id in dict_names:
+            bad = lp
+            continue
+        return None
+    if bad is not None:
+        return bad
+    # anything else that writes state
+    for n in walk_own(f.node):
+        if isinstance(n, ast.Attribute) and isinstance(n.ctx, ast.Store) and not (isinstance(n.value, ast.Name) and n.value.id != f.selfname):
+            return None
+    return True if updates else None
+
+
 def run(ctx):
     p = ctx.p
     typer = typer_for(ctx)
     links = {k for k, (m, _) in link_fields(p).items() if m == "NodeMixin"}
+    from ..memo import memo_fields
+    links = links | {k for k, mm in memo_fields(p).items() if mm.cls == "NodeMixin"}  # cached link data: private state as well
     ga = p.func("SymlinkNodeMixin", "__getattr__")
     ctx.touch(ga)
     namep = ga.posparams[1]
@@ -92,6 +134,20 @@ def run(ctx):
         cls = p.cls(m)
         for name, mem in cls.members.items():
             n += 1
+            if name == "__setstate__" and isinstance(mem, Func):
+                verdict = _setstate_form(mem)
+                if verdict is True:
+                    ctx.inst("P2", mem, mem.node, "__setstate__ restores the dict part with self.__dict__.update() (plain storage, no property or "
+                             "__setattr__ on the way)")
+                    continue
+                if verdict is None:
+                    ctx.extra.setdefault("undecided", []).append("P2: how %s.__setstate__ restores the state is not followed" % m)
+                    continue
+                ctx.viol("P2", mem, verdict, "%s.__setstate__ restores the instance-dict part of the state with setattr(): that goes through "
+                         "class-level properties and __setattr__ (a key that coincides with a read-only navigation property cannot be "
+                         "restored, SymlinkNode forwards it to the target), while the saved state is the raw __dict__" % m,
+                         construct="%s.__setstate__: dict state restored through setattr" % m)
+                continue
             if name in PICKLE_HOOKS and not (m == "SymlinkNodeMixin" and name in ("__getattr__", "__setattr__")):
                 f = mem if isinstance(mem, Func) else mem.getter
                 ctx.viol("P2", f, f.node, "%s defines %s: default pickling/copying no longer sees exactly the link fields" % (m, name),
@@ -182,6 +238,8 @@ def run(ctx):
     else:
         ctx.viol("P2", None, sl, "LightNodeMixin.__slots__ does not list both link fields", construct="LightNodeMixin.__slots__",
                  file=lm.module.relpath, qual="LightNodeMixin", line=getattr(sl, "lineno", lm.node.lineno))
+    if ctx.extra.get("undecided") and not ctx.new_findings():
+        raise AnalysisError("C19 " + "; ".join(ctx.extra["undecided"][:2]))
     ctx.floor("P1", 3)
     ctx.floor("P2", 12)
     ctx.floor("P3", 2)
